@@ -272,6 +272,7 @@ def a_abspath(s: str) -> bool:
 
 # 'a.' sorts between 'a' and 'a/b' as a string but after it as a component list
 NAMES = ['a', 'a.', 'b']
+NN = param('NN', 3)          # how many of the names are used
 
 
 def _tok(ixs, isdir=False):
@@ -293,7 +294,7 @@ K = param('K', 3)
 def c_commonprefix(p1: List[int], p2: List[int], p3: List[int]) -> bool:
     """commonprefix is the deepest common ancestor-or-self (file paths: non-empty)
     pre: 1 <= len(p1) <= M and 1 <= len(p2) <= M and 1 <= len(p3) <= M and (K == 3 or p3 == p2)
-    pre: all(0 <= i < 3 for i in p1) and all(0 <= i < 3 for i in p2) and all(0 <= i < 3 for i in p3)
+    pre: all(0 <= i < NN for i in p1) and all(0 <= i < NN for i in p2) and all(0 <= i < NN for i in p3)
     post: _
     """
     ps = [p1, p2, p3]
@@ -310,7 +311,7 @@ def c_commonprefix(p1: List[int], p2: List[int], p3: List[int]) -> bool:
 def t_uniquetrees(p1: List[int], p2: List[int], p3: List[int]) -> bool:
     """uniquetrees: a subset, covering everything, no element below another
     pre: len(p1) <= M and len(p2) <= M and len(p3) <= M and (K == 3 or p3 == p2)
-    pre: all(0 <= i < 3 for i in p1) and all(0 <= i < 3 for i in p2) and all(0 <= i < 3 for i in p3)
+    pre: all(0 <= i < NN for i in p1) and all(0 <= i < NN for i in p2) and all(0 <= i < NN for i in p3)
     post: _
     """
     ps = [p1, p2, p3]
